@@ -186,13 +186,13 @@ def strip_generics(path):
 
 
 _SKIP_KEYS = {"str", "pretty", "line", "macro", "msg", "span", "nonce", "dbg", "vars", "fields", "variant", "enum_variants"}
-_REDO = re.compile(r"(?<![A-Za-z0-9_:])redo::")
+_REDO = re.compile(r"(?<![A-Za-z0-9_])(?<!::)redo::")
 
 
 def _canon_bin(x, local_roots):
     """Rewrite every path-bearing string of the bin unit's facts to the canonical form:
     lib items lose the `redo::` crate prefix, bin-local items get the `@bin::` prefix."""
-    rx_local = re.compile(r"(?<![A-Za-z0-9_:])(%s)(?=::|$)" % "|".join(sorted(map(re.escape, local_roots))))
+    rx_local = re.compile(r"(?<![A-Za-z0-9_])(?<!::)(%s)(?=::|$)" % "|".join(sorted(map(re.escape, local_roots))))
 
     def fix(s):
         s2 = _REDO.sub("\x00", s)          # protect lib paths
